@@ -639,12 +639,14 @@ func (br *bodyRun) applyContract(st *State, ct *Contract, key string, names []st
 					ks = append(ks, k)
 				}
 				sort.Strings(ks)
-				restore := fc.keepLocals(st)
-				for _, k := range ks {
-					fc.touched[k] = true
-					fc.havocKey(st, k, fr.keys[k])
+				_ = ks
+				var argVals []ssa.Value
+				if x != nil {
+					argVals = x.Common().Args
 				}
-				restore()
+				// (same treatment as a callee without contract: the caller's own variable cells
+				// survive when the callee cannot have their address)
+				br.havocInferred(st, fr.keys, fn, args, argVals)
 				br.havocInteriorArgs(st, args)
 				if fr.locks {
 					fc.havocHeld(st)
